@@ -413,6 +413,8 @@ func (a *AggregatePlan) batch(ctx *ExecuteCtx) ([][]Column, error) {
 	for count < PlanBatchSize {
 		aggrRow := a.aggrRows[a.pos]
 		a.pos++
+		// As in next: nothing cached for a scanned pair is valid here
+		ctx.ClearRowCache()
 		row := make([]Column, len(a.aggrFields))
 		for i, col := range aggrRow {
 			if col.IsKey {
@@ -481,6 +483,9 @@ func (a *AggregatePlan) next(ctx *ExecuteCtx) ([]Column, error) {
 	}
 	aggrRow := a.aggrRows[a.pos]
 	a.pos++
+	// The fields are completed on an empty pair, results cached for the
+	// last scanned pair must not show through
+	ctx.ClearRowCache()
 	row := make([]Column, len(a.aggrFields))
 	for i, col := range aggrRow {
 		if col.IsKey {
